@@ -223,11 +223,11 @@ class SInt:
         return f"\u27e6{self.t}\u27e7"
 
     def __str__(self):
-        # str() of symbolic data yields a *marked* placeholder; shims refuse marked strings as keys (fail closed)
-        return f"\u27e6{self.t}\u27e7"
+        # str() of symbolic data yields a *marked* placeholder that refuses to be inspected (SymStr)
+        return SymStr(self)
 
     def __format__(self, spec):
-        return f"\u27e6{self.t}\u27e7"
+        return SymStr(self)
 
 
 class SBool:
@@ -341,6 +341,118 @@ class SId(SInt):
     def __bool__(self):
         raise Unsupported("truth value of a symbolic id")
 
+    # the id IS a string in reality: the string predicates of SymStr apply to it directly
+    def startswith(self, p, *a):
+        return SymStr(self).startswith(p, *a)
+
+    def endswith(self, p, *a):
+        return SymStr(self).endswith(p, *a)
+
+    def __contains__(self, sub):
+        return SymStr(self).__contains__(sub)
+
+
+class SymStr(str):
+    """str() / format() of a symbolic scalar: a placeholder text for messages.  Any operation whose result would depend
+    on the (unknown) characters is either answered symbolically -- startswith / endswith / `in` on the text of an id
+    become uninterpreted predicates of the id, fixed by axioms on every concrete id and on generated ids -- or refused."""
+    _pyvc_proxy = True
+
+    def __new__(cls, origin):
+        s = str.__new__(cls, f"\u27e6{origin.t}\u27e7")
+        s.origin = origin
+        return s
+
+    def _pred(self, kind, lit):
+        o = self.origin
+        if type(o) is not SId or type(lit) is not str:
+            raise Unsupported(f"str.{kind} on the text of a symbolic value")
+        return lift(str_pred(kind, lit)(o.t))
+
+    def startswith(self, p, *a):
+        if a:
+            raise Unsupported("str.startswith with offsets on the text of a symbolic id")
+        return self._pred("startswith", p)
+
+    def endswith(self, p, *a):
+        if a:
+            raise Unsupported("str.endswith with offsets on the text of a symbolic id")
+        return self._pred("endswith", p)
+
+    def __contains__(self, sub):
+        return bool(self._pred("contains", sub))
+
+    def __eq__(self, o):
+        if type(self.origin) is SId:
+            return self.origin == (o.origin if type(o) is SymStr else o)
+        raise Unsupported("comparison of the text of a symbolic value")
+
+    def __ne__(self, o):
+        return snot(self.__eq__(o))
+
+    def __hash__(self):
+        raise Unsupported("hash of the text of a symbolic value")
+
+    def _refuse(name):
+        def f(self, *a, **k):
+            raise Unsupported(f"str.{name} on the text of a symbolic value")
+        f.__name__ = name
+        return f
+    for _n in ("find", "rfind", "index", "rindex", "count", "split", "rsplit", "splitlines", "partition", "rpartition",
+               "replace", "strip", "lstrip", "rstrip", "lower", "upper", "title", "capitalize", "casefold", "swapcase",
+               "isdigit", "isalpha", "isalnum", "isnumeric", "isdecimal", "isidentifier", "islower", "isupper", "isspace",
+               "removeprefix", "removesuffix", "zfill", "center", "ljust", "rjust", "translate", "__len__", "__getitem__",
+               "__iter__", "__lt__", "__le__", "__gt__", "__ge__", "__mul__", "__rmul__", "__int__", "__float__"):
+        locals()[_n] = _refuse(_n)
+    del _n, _refuse
+
+
+_STR_TRUTH = {"startswith": lambda s, l: s.startswith(l), "endswith": lambda s, l: s.endswith(l),
+              "contains": lambda s, l: l in s}
+
+
+def str_pred(kind, lit):
+    """uninterpreted predicate `kind|lit` over id codes, with its value fixed on every interned concrete id and on the
+    generated ids seen so far (A-sha: a generated id is 'VAR' + 64 hex digits)"""
+    c = ctx()
+    reg = c.__dict__.setdefault("str_preds", {})
+    key = (kind, lit)
+    if key not in reg:
+        f = z3.Function(f"str.{kind}|{lit}", z3.IntSort(), z3.BoolSort())
+        reg[key] = f
+        for (tn, x), code in c.__dict__.setdefault("id_table", {}).items():
+            _fix_concrete(c, kind, lit, f, x, code)
+        for g in c.__dict__.setdefault("generated_id_terms", []):
+            _fix_generated(c, kind, lit, f, g)
+    return reg[key]
+
+
+def _fix_concrete(c, kind, lit, f, x, code):
+    val = _STR_TRUTH[kind](str(x), lit)
+    c.axiom(f(z3.IntVal(code)) if val else z3.Not(f(z3.IntVal(code))))
+
+
+def _fix_generated(c, kind, lit, f, g):
+    hexd = set("0123456789abcdef")
+    if kind == "startswith":
+        if "VAR".startswith(lit):
+            c.axiom(f(g))
+        elif not (lit.startswith("VAR") and set(lit[3:]) <= hexd and len(lit) <= 67):
+            c.axiom(z3.Not(f(g)))
+    elif kind == "endswith":
+        if lit and not (set(lit) <= hexd and len(lit) <= 64) and not (len(lit) > 64 and "VAR".endswith(lit[:-64]) and set(lit[-64:]) <= hexd):
+            c.axiom(z3.Not(f(g)))
+    elif kind == "contains":
+        if lit in "VAR":
+            c.axiom(f(g))
+
+
+def note_generated_id(term):
+    c = ctx()
+    c.__dict__.setdefault("generated_id_terms", []).append(term)
+    for (kind, lit), f in c.__dict__.setdefault("str_preds", {}).items():
+        _fix_generated(c, kind, lit, f, term)
+
 
 def intern_id(x):
     """concrete id (str/int) -> SId with a stable integer code; distinct concrete ids get distinct codes"""
@@ -354,6 +466,8 @@ def intern_id(x):
     if key not in tab:
         # concrete ids live in the negative integers, ordered as CPython orders them among themselves
         tab[key] = -(len(tab) + 1)
+        for (kind, lit), f in c.__dict__.setdefault("str_preds", {}).items():
+            _fix_concrete(c, kind, lit, f, x, tab[key])
     return SId(z3.IntVal(tab[key]))
 
 
